@@ -92,6 +92,10 @@ pub struct Side {
     pub tcb: Option<Tcb>,
     /// passive endpoint that has not created its TCB yet
     pub listening: bool,
+    /// this endpoint was opened passively
+    pub passive: bool,
+    /// times a reset in SYN-RECEIVED sent the passive endpoint back to LISTEN
+    pub returned_to_listen: u64,
     pub released: bool,
     pub iss: u32,
     pub submitted: Vec<u8>,
@@ -157,6 +161,8 @@ impl Side {
         Side {
             tcb: None,
             listening: false,
+            passive: false,
+            returned_to_listen: 0,
             released: false,
             iss,
             submitted: vec![],
@@ -202,7 +208,10 @@ impl Pair {
         };
         p.open(A);
         match style {
-            OpenStyle::ActivePassive => p.sides[B].listening = true,
+            OpenStyle::ActivePassive => {
+                p.sides[B].listening = true;
+                p.sides[B].passive = true;
+            }
             OpenStyle::Simultaneous => p.open(B),
         }
         p
@@ -411,7 +420,14 @@ impl Pair {
                     o.released = true;
                     o.snap_after = self.sides[side].snap();
                     self.sides[side].tcb = None;
-                    self.sides[side].released = true;
+                    if self.sides[side].passive && o.before == Some(State::SynReceived) && f & 4 != 0 {
+                        // RFC 9293 3.10.7.4: a reset in SYN-RECEIVED returns a passively
+                        // opened connection to LISTEN (the stack's listen binding stays)
+                        self.sides[side].listening = true;
+                        self.sides[side].returned_to_listen += 1;
+                    } else {
+                        self.sides[side].released = true;
+                    }
                 }
                 Err(e) => self.panic = Some(format!("Tcb::segment_arrives [{} seq={sq} ack={ak} len={ln} wnd={wn}]: {e}", flag_names(f))),
             }
